@@ -690,6 +690,14 @@ impl<W: Word, B: AsRef<[W]> + AsMut<[W]>> BitFieldSliceMut<W> for BitFieldVec<W,
         // longer than the vector (e.g., after a resize or a pop).
         let number_of_words: usize = (self.len() * bit_width).div_ceil(W::BITS);
         let last_word_idx = number_of_words.saturating_sub(1);
+        // The bits of the last word beyond the end of the vector are not ours
+        // and must be preserved.
+        let residual = (self.len() * bit_width) % W::BITS;
+        let tail = if residual == 0 {
+            W::ZERO
+        } else {
+            *self.bits.as_ref().get_unchecked(last_word_idx) & (W::MAX << residual)
+        };
 
         let mut write_buffer: W = W::ZERO;
         let mut read_buffer: W = *self.bits.as_ref().get_unchecked(0);
@@ -747,7 +755,7 @@ impl<W: Word, B: AsRef<[W]> + AsMut<[W]>> BitFieldSliceMut<W> for BitFieldVec<W,
                 bits_in_buffer += bit_width;
             }
 
-            *self.bits.as_mut().get_unchecked_mut(last_word_idx) = write_buffer;
+            *self.bits.as_mut().get_unchecked_mut(last_word_idx) = write_buffer | tail;
             return;
         }
 
@@ -822,7 +830,7 @@ impl<W: Word, B: AsRef<[W]> + AsMut<[W]>> BitFieldSliceMut<W> for BitFieldVec<W,
             offset += bit_width;
         }
 
-        *self.bits.as_mut().get_unchecked_mut(last_word_idx) = write_buffer;
+        *self.bits.as_mut().get_unchecked_mut(last_word_idx) = write_buffer | tail;
     }
 
     type ChunksMut<'a>
